@@ -12,7 +12,10 @@
 #include <ygm/container/disjoint_set.hpp>
 #include <ygm/container/map.hpp>
 #include <ygm/container/set.hpp>
+#include <ygm/collective.hpp>
 #include <cstdio>
+#include <unistd.h>
+#include <vector>
 #include <string>
 
 static long g_exec = 0;
